@@ -23,6 +23,7 @@ MANIFEST = {
     'technique': 'executable-specification monitor on the real masked sift + schedule-independence oracle with delay injection and per-process event logs',
 }
 LOGGER_ON_ODD_SHARDS = 'quarter'   # (sifting logs heavily: a quarter of the shards run with the logger set up)
+SESSION_NOISE = True      # every shard starts after unrelated session activity (harness.session_noise)
 BUDGET_S = {'quick': 75, 'thorough': 480}
 NCASES = {'quick': 1600, 'thorough': 16000}
 RULE = ('seeded random signals (noise, walks, tones+trend, AM/FM; 100..400 samples) x {single masked extraction, full mask '
@@ -68,6 +69,7 @@ def gen_case(rng, kind):
         c['mask_freqs'] = gens.pick(rng, ['zc', 'if', float(rng.uniform(.1, .4)),
                                           [float(v) for v in np.sort(rng.uniform(.01, .45, 5))[::-1]],
                                           [float(v) for v in rng.uniform(.01, .45, 5)],          # the user's order, not sorted
+                                          [.4, .2, .1, .05, .025, 0], [.3, 0.0, .12, .05, .02],   # the docstring's example ends with a zero-frequency mask
                                           tuple(float(v) for v in np.sort(rng.uniform(.01, .45, 5)))])
         c['mask_amp_mode'] = gens.pick(rng, ['abs', 'ratio_sig', 'ratio_imf'])
         c['max_imfs'] = int(rng.integers(1, 6))
@@ -244,6 +246,20 @@ def run_shard(ctx):
     n = NCASES[ctx.tier] // ctx.nshards
     tr, tdir = make_trace(ctx)
     with tr:
+        if ctx.shard % 8 == 6:
+            # one long recording per run (size-dependent code paths): 70 000 samples, several phases and workers
+            big = gen_case(rng, 'gnim')
+            big['x'] = gens.signal(rng, 'noise', int(rng.integers(68000, 75000))) + np.sin(np.arange(1) * 0)
+            big['imf_opts'] = {'stop_method': 'fixed', 'max_iters': 2}
+            big['envelope_opts'] = {'interp_method': 'splrep'}
+            big['z'], big['nphases'], big['nprocesses'] = float(rng.uniform(.03, .2)), int(rng.integers(2, 5)), [1, int(rng.integers(2, 4))]
+            big['amp'] = float(big['x'].std())
+            try:
+                with watchdog(300):
+                    check_gnim(ctx, tr, big)
+                ctx.count('very_long_recordings')
+            except WatchdogTimeout:
+                ctx.count('watchdog')
         for i in range(n):
             if ctx.out_of_time():
                 break
